@@ -123,11 +123,13 @@ CONTRACTS += [
                        'result[1] == date_with(latest_before(2, 29, ordinal_of(reference), reference.year), 0)')]),
     # ------------------------------------------------------------------ am/pm second reading (C07)
     Contract('dt.to_pm', FU + 'to_pm', ['C07', 'C11'],
-             params=dict(has_t=Bool(), hh=Int(0, 12), shape=Int(0, 2), mm=Int(0, 59), ss=Int(0, 59),
+             params=dict(has_t=Bool(), hh=Int(0, 23), shape=Int(0, 2), mm=Int(0, 59), ss=Int(0, 59),
                          tail=Expr('"" if shape == 0 else (":" + fmt(mm, 2) if shape == 1 else ":" + fmt(mm, 2) + ":" + fmt(ss, 2))'),
                          source=Expr('("T" if has_t else "") + fmt(hh, 2) + tail')),
              ensures=[('twelve-hours-later-rest-unchanged',
-                       'result == ("T" if has_t else "") + fmt((hh + 12) % 24, 2) + tail')]),
+                       'result == ("T" if has_t else "") + fmt((hh + 12) % 24, 2) + tail')],
+             note='every hour 00..23: _resolve_ampm hands the end of a time range to to_pm after the range has already been '
+                  'carried past noon ("from 11:05 to 1:05": first reading ends at 13:05)'),
     # ------------------------------------------------------------------ spans and period counts (C10)
     Contract('dt.luis_time_span', FU + 'luis_time_span', ['C10'],
              params=dict(begin_time=DateTime(1950, 2090), end_time=DateTime(1950, 2090)),
